@@ -105,7 +105,19 @@ _CI_E = lambda f, flag: [["src", f], [], ([["F0", "E"]] if flag else []), []]
 _CI_D = lambda f, h: [["src", f], [], [["H0", ["P", False, [h]], "H0__P"], ["H0__P", ["P", False, [h]]]], []]
 _CI_FILES_D = [_CI_FILES[0], _CI_FILES[1], [["src", "bk.h"], [["Inc", ["M", "H0"]]]], _CI_FILES[3], _CI_FILES[4]]
 
+# the shape of a fourth seeded regression (a header re-parsed, and its association map reset, when it is included
+# from a translation unit of another language): common.h shared by core.c, util.c and wrap.cpp, two platforms
+_ML_FILES = [[["src", "common.h"], [["Once"], ["Code"], ["If", ["Defd", "F0"]], ["Code"], ["Else"], ["Code"], ["Endif"],
+                                   ["If", ["Defd", "F1"]], ["Code"], ["Endif"]]],
+             [["src", "core.c"], [["Inc", ["Q", ["common.h"]]], ["Code"]]],
+             [["src", "util.c"], [["Inc", ["Q", ["common.h"]]], ["Code"]]],
+             [["src", "wrap.cpp"], [["Inc", ["Q", ["common.h"]]], ["Code"]]]]
+_ML_E = lambda f, defs=(): [["src", f], [], [list(d) for d in defs], []]
+
 CORPUS_EXTRA = [
+    ["lib", _ML_FILES, [["P0", [_ML_E("core.c", [["F0", "E"]]), _ML_E("wrap.cpp")]], ["P1", [_ML_E("util.c", [["F1", 1]])]]], 41],
+    ["lib", _ML_FILES, [["P0", [_ML_E("wrap.cpp"), _ML_E("core.c", [["F0", "E"]]), _ML_E("util.c")]], ["P1", [_ML_E("wrap.cpp", [["F1", 1]])]]], 42],
+    ["cli", _ML_FILES, [["P0", [_ML_E("core.c", [["F0", "E"]]), _ML_E("util.c")]], ["P1", [_ML_E("wrap.cpp", [["F1", 1]])]]], 43],
     ["lib", _CI_FILES, [["P0", [_CI_E("a.c", True), _CI_E("b.c", False)]]], 31],
     ["lib", _CI_FILES, [["P0", [_CI_E("b.c", False), _CI_E("a.c", True)]], ["P1", [_CI_E("a.c", False)]]], 32],
     ["cli", _CI_FILES, [["P0", [_CI_E("a.c", True)]], ["P1", [_CI_E("b.c", False)]]], 33],
@@ -152,6 +164,7 @@ class C08(Check):
             "2-4 commands of a platform often share IDENTICAL options with 0-2 -include, and compiled files define/undefine private macros (T0-T2) that other compiled files and shared headers test; "
             "0-2 single-node files (a header that is only an #include / #define / #undef / #pragma once / one code block) reached early by the compiled files; "
             "30 % of the cases have a computed include whose macro differs per command (-D or #ifdef), and in half of the cases with a path-valued macro it is rendered two-level (#define H0 H0__P); "
+            "in 45 % of the random cases some compiled files carry a C++ extension (.cpp/.cc/.cxx) so that headers are reached from two languages; "
             "non-trivial = the hoisted-Platform, cached-include or prefix-header-cache variant of the model gives a different attribution on the case "
             "(i.e. the case can expose state leaking between commands)")
     assumptions = ["paths are absolute, normalised, without symbolic links (C13/C15)",
@@ -161,13 +174,13 @@ class C08(Check):
     def __init__(self, tier, seed):
         super().__init__(tier, seed)
         self.sensitive = {}
-        self.dist = {"lib": 0, "cli": 0, "platforms": {}, "commands": {}, "hoisted_differs": 0, "cached_differs": 0, "prefix_cache_differs": 0, "cases_with_same_option_group": 0, "per_command_computed_include_cases": 0, "cases_with_path_macro": 0, "cases_with_indirect_path_macro": 0, "cases_with_single_node_file": 0,
+        self.dist = {"lib": 0, "cli": 0, "platforms": {}, "commands": {}, "hoisted_differs": 0, "cached_differs": 0, "prefix_cache_differs": 0, "cases_with_same_option_group": 0, "per_command_computed_include_cases": 0, "cases_with_path_macro": 0, "cases_with_indirect_path_macro": 0, "cases_with_single_node_file": 0, "mixed_language_cases": 0,
                      "impl_find_calls": 0, "cli_inproc_calls": 0, "cli_subprocess_calls": 0, "malformed": 0, "exhaustive_block": 0}
         self.subproc_budget = 6 if tier == "quick" else 60
 
     # ---- generation ----
     def gen_case(self, kind, wild=False):
-        files, mains, names = U.gen_files(self.rng, wild)
+        files, mains, names = U.gen_files(self.rng, wild, cxx=True)
         cfg = U.gen_cfg(self.rng, mains, names)
         if kind == "cli":
             # some commands use the user-defined multi-pass compiler of .cbi/config
@@ -393,6 +406,8 @@ class C08(Check):
                 nsame += sum(1 for v in seen.values() if v >= 2)
             self.dist["cases_with_same_option_group"] += int(nsame > 0)
             self.dist["cases_with_single_node_file"] += int(any(len(ls) == 1 for _, ls in case[1]))
+            exts = {e[0][-1].rsplit(".", 1)[-1] for _, es in case[2] for e in es}
+            self.dist["mixed_language_cases"] += int("c" in exts and bool(exts & {"cpp", "cc", "cxx"}))
         self.sensitive[key] = hd or kd or pd
         if m[0] != "Ok":
             return self.err_of(m) if case[0] == "lib" else None
